@@ -158,11 +158,12 @@ class StmtMixin:
         if not (isinstance(e, Obj) and isinstance(e.cls, type)
                 and issubclass(e.cls, BaseException)):
             raise Unsupported('raise of non-exception %r' % (e,))
+        if fr.locals.get('@handling') is not None:
+            self.heap[e.oid].setdefault('__context__', fr.locals.get('@handling'))
         if node.cause is not None:
             c = self.eval(node.cause, fr)
             self.heap[e.oid]['__cause__'] = c
-        elif fr.locals.get('@handling') is not None:
-            self.heap[e.oid].setdefault('__context__', fr.locals.get('@handling'))
+            self.heap[e.oid]['__suppress_context__'] = True
         raise TargetExc(e)
 
     # -- assignment targets
